@@ -182,7 +182,10 @@ func VerifHarness_C16_calls() {
 	keys := c16Keys()
 	// a request of "another caller", already registered
 	foreignCh := make(chan *Message, 1)
-	foreign := &request{typ: c16Kinds[verifrt.Choose("foreign.kind", len(c16Kinds))], hash: keys[4], height: 99, id: 777, response: foreignCh}
+	// (distinct key: the statement quantifies over concurrent calls with distinct keys)
+	var foreignKey bitcoin.Hash32
+	foreignKey[3] = 0xf0
+	foreign := &request{typ: c16Kinds[verifrt.Choose("foreign.kind", len(c16Kinds))], hash: foreignKey, height: 5000000, id: 777, response: foreignCh}
 	c.requests = append(c.requests, foreign)
 
 	kind := verifrt.Choose("call", 7)
